@@ -1004,9 +1004,14 @@ class Engine:
         k = e["k"]
         t = e.get("t", "")
         if k == "ConditionalOperator":
-            c = path(g, g.s(e["cond"]))
-            a = self._summ_expr(g, la, g.s(e["then"]), g.pos_of(g.s(e["then"])), (c, True))
-            b = self._summ_expr(g, la, g.s(e["else"]), g.pos_of(g.s(e["else"])), (c, False))
+            ce = unwrap(g, g.s(e["cond"]))
+            neg = False
+            while ce is not None and ce["k"] == "UnaryOperator" and ce.get("op") == "!":
+                neg = not neg
+                ce = unwrap(g, g.children(ce)[0])
+            c = path(g, ce)
+            a = self._summ_expr(g, la, g.s(e["then"]), g.pos_of(g.s(e["then"])), (c, not neg))
+            b = self._summ_expr(g, la, g.s(e["else"]), g.pos_of(g.s(e["else"])), (c, neg))
             if a is None or b is None:
                 return None
             return a + b
